@@ -875,8 +875,13 @@ func reduceEntries(entries []Entry, fn sutils.AggregateFunctions, fnConstant flo
 	var ret float64
 	switch fn {
 	case sutils.Sum:
+		// start from the first value, not from +0: (+0) + (-0) is +0
 		for i := range entries {
-			ret += entries[i].dpVal
+			if i == 0 {
+				ret = entries[i].dpVal
+			} else {
+				ret += entries[i].dpVal
+			}
 		}
 	case sutils.BottomK:
 		fallthrough
@@ -944,13 +949,21 @@ func reduceRunningEntries(entries []RunningEntry, fn sutils.AggregateFunctions, 
 	case sutils.Avg:
 		count := uint64(0)
 		for i := range entries {
-			ret += entries[i].runningVal
+			if i == 0 {
+				ret = entries[i].runningVal
+			} else {
+				ret += entries[i].runningVal
+			}
 			count += entries[i].runningCount
 		}
 		ret = ret / float64(count)
 	case sutils.Sum:
 		for i := range entries {
-			ret += entries[i].runningVal
+			if i == 0 {
+				ret = entries[i].runningVal
+			} else {
+				ret += entries[i].runningVal
+			}
 		}
 	case sutils.Min:
 		for i := range entries {
